@@ -194,7 +194,20 @@ func registerBig(p *Program) {
 	I[B+"SetString"] = func(m *Machine, fr *Frame, fn *ssa.Function, a []Value) Value {
 		s := m.strArg(a[1])
 		if !s.IsConcrete() {
-			panic(unsupported("big.Int.SetString of a symbolic string"))
+			// symbolic decimal digits (at most 19): value = sum of digits
+			m.checkTaint(s)
+			if m.concreteInt(a[2], "base") != 10 || len(s.b) == 0 || len(s.b) > 19 {
+				panic(unsupported("big.Int.SetString of a symbolic string (only 1..19 decimal digits)"))
+			}
+			tb := m.tb
+			sum := tb.Const(0, bigW)
+			for _, c := range s.b {
+				if !m.decide(tb.And(tb.Ule(tb.Const('0', 8), c), tb.Ule(c, tb.Const('9', 8)))) {
+					return Tuple{(*Value)(nil), tb.Bool(false)}
+				}
+				sum = tb.Add(tb.Mul(sum, tb.Const(10, bigW)), tb.Zext(tb.Sub(c, tb.Const('0', 8)), bigW))
+			}
+			return Tuple{m.bigSet(a[0], sum), tb.Bool(true)}
 		}
 		r, ok := new(big.Int).SetString(s.Concrete(), m.concreteInt(a[2], "base"))
 		if !ok {
